@@ -113,6 +113,78 @@ Proof.
   intro Hin. rewrite Forall_forall in F. specialize (F a Hin). lia.
 Qed.
 
+(* ---- the same, backwards: seek_to_last followed by any number of prev *)
+Definition is_prev (r : res) : Prop := match r with RPrev _ _ => True | _ => False end.
+Definition N_gt (x y : N) : Prop := (y < x)%N.
+
+Lemma prevs_at_head : forall rs K K', hist K rs K' -> Forall is_prev rs -> froms_ok AtHead rs ->
+  somes (map res_key rs) = [].
+Proof.
+  induction rs as [|r rs IH]; intros K K' H Fn Fo; auto.
+  inversion Fn as [|? ? Hn Fn']; subst. destruct r; cbn in Hn; try contradiction.
+  cbn in Fo. destruct Fo as [-> Fo].
+  inversion H as [|? K1 K1' ? ? ? Ha Hb Hr Hh]; subst. cbn in Hr. subst r. cbn.
+  eapply IH; eauto.
+Qed.
+
+Lemma prevs_from_key : forall rs K K' a, hist K rs K' -> Forall is_prev rs -> froms_ok (AtKey a) rs ->
+  Forall (fun y => (y < a)%N /\ In y K') (somes (map res_key rs)) /\
+  StronglySorted N_gt (somes (map res_key rs)) /\
+  (last (map res_key rs) (Some a) = None -> forall k, In k K -> (k < a)%N -> In k (somes (map res_key rs))).
+Proof.
+  induction rs as [|r rs IH]; intros K K' a H Fn Fo.
+  - cbn. repeat split; try constructor. discriminate.
+  - inversion Fn as [|? ? Hn Fn']; subst. destruct r; cbn in Hn; try contradiction.
+    cbn in Fo. destruct Fo as [-> Fo].
+    inversion H as [|? K1 K1' ? ? ? Ha Hb Hr Hh]; subst. cbn in Hr.
+    pose proof (hist_incl _ _ _ Hh) as Hinc.
+    destruct r as [b|].
+    + destruct Hr as [Hb1 [Hb2 Hb3]].
+      destruct (IH K1' K' b Hh Fn' Fo) as [A [B C]]. cbn [map res_key somes]. split; [|split].
+      * constructor; [split; auto|]. eapply Forall_impl; [|exact A]. intros y [Y1 Y2]. split; auto. lia.
+      * constructor; auto. eapply Forall_impl; [|exact A]. intros y [Y1 Y2]. exact Y1.
+      * intros Hl k Hk Hak. assert (Hk1 : In k K1) by (apply Ha; auto).
+        pose proof (Hb3 k Hk1 Hak) as Hle. destruct (N.eq_dec k b) as [->|Ne]; [left; reflexivity|].
+        right. apply C; auto; try lia.
+        cbn [map res_key] in Hl. rewrite last_cons_shift in Hl. exact Hl.
+    + cbn in Fo. cbn [map res_key somes]. rewrite (prevs_at_head rs K1' K' Hh Fn' Fo).
+      split; [constructor|]. split; [constructor|]. intros _ k Hk Hak.
+      assert (Hk1 : In k K1) by (apply Ha; auto). specialize (Hr k Hk1). lia.
+Qed.
+
+Theorem backward_hist : forall K K' f y0 rs, hist K (RLast :: RPrev f y0 :: rs) K' -> Forall is_prev rs ->
+  froms_ok AtEnd (RPrev f y0 :: rs) ->
+  let ys := y0 :: map res_key rs in
+  StronglySorted N_gt (somes ys) /\
+  (forall y, In y (somes ys) -> In y K') /\
+  (last ys None = None -> forall k, In k K -> In k (somes ys)).
+Proof.
+  intros K K' f y0 rs H Fn Fo ys. unfold ys.
+  inversion H as [|? Ka Kb ? ? ? Haa Hab _ H2]; subst.
+  cbn in Fo. destruct Fo as [-> Fo].
+  inversion H2 as [|? K1 K1' ? ? ? Ha Hb Hr Hh]; subst. cbn in Hr.
+  assert (HK : incl K K1) by (eapply incl_tran; [|exact Ha]; eapply incl_tran; eauto).
+  pose proof (hist_incl _ _ _ Hh) as Hinc.
+  destruct y0 as [a|].
+  - destruct Hr as [Ha1 Ha2]. cbn in Fo.
+    destruct (prevs_from_key rs K1' K' a Hh Fn Fo) as [A [B C]]. cbn [somes]. split; [|split].
+    + constructor; auto. eapply Forall_impl; [|exact A]. intros y [Y1 Y2]. exact Y1.
+    + intros y [<-|Hy]; auto. rewrite Forall_forall in A. apply A. exact Hy.
+    + intros Hl k Hk. assert (Hk1 : In k K1) by (apply HK; auto).
+      pose proof (Ha2 k Hk1) as Hle. destruct (N.eq_dec k a) as [->|Ne]; [left; reflexivity|].
+      right. apply C; auto; try lia.
+      rewrite last_cons_shift in Hl. exact Hl.
+  - cbn in Fo. cbn [somes]. rewrite (prevs_at_head rs K1' K' Hh Fn Fo). split; [constructor|].
+    split; [intros y []|]. intros _ k Hk. assert (Hk1 : In k K1) by (apply HK; auto).
+    cbn in Hr. rewrite Hr in Hk1. contradiction.
+Qed.
+
+Lemma ssorted_gt_nodup : forall l, StronglySorted N_gt l -> NoDup l.
+Proof.
+  induction 1 as [|a l S IH F]; constructor; auto.
+  intro Hin. rewrite Forall_forall in F. specialize (F a Hin). unfold N_gt in F. lia.
+Qed.
+
 (* ------------------------------------------------------------------ reachable states *)
 Section Main.
 Variable maxh : nat.
@@ -290,6 +362,29 @@ Proof.
   split; auto. split; auto. split; auto. intro Hl. split.
   - apply D; auto.
   - intros t1 th1 k H1 H2. apply D; auto. eapply insert_in_keys; eauto.
+Qed.
+
+(* a full backward iteration (seek_to_last, then prev until the front) performed after s1:
+   strictly decreasing, only keys of the list, and every key that was in the list at s1 once *)
+Theorem backward_iteration_sorted_once : forall s1 sched t tha thb f y0 rs, reach s1 ->
+  nth_error (sthreads s1) t = Some tha ->
+  nth_error (sthreads (run maxh sched s1)) t = Some thb ->
+  outs thb = outs tha ++ RLast :: RPrev f y0 :: rs -> Forall is_prev rs ->
+  let ys := somes (y0 :: map res_key rs) in
+  StronglySorted N_gt ys /\ NoDup ys /\
+  (forall y, In y ys -> In y (keys0 (smem (run maxh sched s1)))) /\
+  (last (y0 :: map res_key rs) None = None ->
+     (forall k, In k (keys0 (smem s1)) -> In k ys) /\
+     (forall t1 th1 k, nth_error (sthreads s1) t1 = Some th1 -> In (RIns k) (outs th1) -> In k ys)).
+Proof.
+  intros s1 sched t tha thb f y0 rs R Ha Hb Ho Fn ys.
+  destruct (results_between s1 sched t tha R Ha) as [th2 [rs' [A [B [C D]]]]].
+  rewrite Hb in A. inversion A; subst th2. rewrite Ho in B. apply app_inv_head in B. subst rs'.
+  cbn [froms_ok] in D. destruct D as [_ D]. unfold upd_ipos in D. cbn [res_ipos] in D.
+  destruct (backward_hist _ _ f y0 rs C Fn D) as [S1 [S2 S3]].
+  split; auto. split; [apply ssorted_gt_nodup; exact S1|]. split; auto. intro Hl. split.
+  - apply S3; auto.
+  - intros t1 th1 k H1 H2. apply S3; auto. eapply insert_in_keys; eauto.
 Qed.
 
 End Main.
